@@ -392,6 +392,30 @@ func c11(c *Ctx) {
 		"re-issues its request on the marker."
 	r.NotDecided = []string{"liveness over histories with k rotations and n pending requests", "interaction with a fresh key exchange beyond C09 R09.C"}
 	r.Rule("R11.S", "adopt and save: the salt field is assigned from the server's value and SaveSession follows, in both arms", 2)
+	// "written to the session store": SaveSession hands all four fields to the store, and the store the library
+	// ships writes whenever it reports success
+	if sv := c.fn("R11.S", load.RootMod, "*MTProto", "SaveSession"); sv != nil {
+		n := 0
+		for _, cs := range an.Calls(sv) {
+			if cs.Common.IsInvoke() && cs.Common.Method.Name() == "Store" {
+				n++
+				uncond := true
+				for _, b := range sv.Blocks {
+					if ret, ok := b.Instrs[len(b.Instrs)-1].(*ssa.Return); ok && !an.InstrDominates(cs.Instr, ret) {
+						uncond = false
+					}
+				}
+				d := an.NewDeps(c.inRepo).Of(cs.Common.Args[0])
+				r.Check(uncond && d.Has("field:mtproto.MTProto.serverSalt"), "R11.S", "save-hands-salt-to-store", c.pos(cs.Pos()), "SaveSession calls the store's Store on every path with a session built from m.serverSalt; roots: "+strings.Join(an.SortedKeys(d.Roots), ", "))
+			}
+		}
+		if n == 0 {
+			r.Violate("R11.S", "save-hands-salt-to-store", c.pos(sv.Pos()), "SaveSession does not call Store on the session storage")
+		}
+	}
+	if f := c.fn("R11.S", load.SessPkg, "*genericFileSessionLoader", "Store"); f != nil {
+		c.storeSuccessMeansWritten("R11.S", f)
+	}
 	r.Rule("R11.T", "target: the retry marker is sent to the waiter registered under bad_msg_id only", 1)
 	r.Rule("R11.F", "forget: every entry that is sent the marker is deleted from the table", 1)
 	r.Rule("R11.R", "the waiter re-issues the request on *errorSessionConfigsChanged", 1)
